@@ -127,6 +127,24 @@ impl<Fut: Future> FuturesOrdered<Fut> {
     }
 }
 
+#[cfg(futures_buffered_verif)]
+impl<Fut: Future> FuturesOrdered<Fut> {
+    /// Seeds both position counters of an empty queue, as if `start` futures had already
+    /// passed through it. Verification harness only.
+    #[doc(hidden)]
+    pub fn __verif_set_position(&mut self, start: usize) {
+        assert!(self.is_empty());
+        self.next_incoming_index = Wrapping(start);
+        self.next_outgoing_index = Wrapping(start);
+    }
+
+    /// Read-only view for the verification harness: `(cursor, [(capacity, len) per group])`.
+    #[doc(hidden)]
+    pub fn __verif_layout(&self) -> (usize, alloc::vec::Vec<(usize, usize)>) {
+        self.in_progress_queue.__verif_layout()
+    }
+}
+
 impl<Fut: Future> Default for FuturesOrdered<Fut> {
     fn default() -> Self {
         Self::new()
@@ -157,6 +175,8 @@ impl<Fut: Future> Stream for FuturesOrdered<Fut> {
 
             this.next_outgoing_index.0 ^= MSB;
             this.next_incoming_index.0 ^= MSB;
+            #[cfg(futures_buffered_verif)]
+            crate::verif::hit(crate::verif::Hit::OrderedRebase);
         }
 
         // Check to see if we've already received the next value
